@@ -61,6 +61,27 @@ def schedules():
                      _uop("rem", 2, ["m"], key="k1", o=""), {"a": "dlv", "r": 1, "u": [6]}]
                 s += ([{"a": "gcf", "r": 1}] if forced else []) + [{"a": "undo", "r": 1}, {"a": "undo", "r": 1}, {"a": "redo", "r": 1}]
                 add("staler" + k, ["t", "m"], s, gc1)
+    # XML scope: an element with an attribute, a nested text node (characters, formatting) and a nested element, plus a
+    # text node, built by the tracked origin (one captured step) or by another origin
+    gcf, undo, redo = {"a": "gcf", "r": 1}, {"a": "undo", "r": 1}, {"a": "redo", "r": 1}
+    build = [_uop("ins", 1, ["x"], 0, 1, k="E"), _uop("set", 1, ["x", "#e0"], key="id"), _uop("ins", 1, ["x", "#e0"], 0, 2, k="X"),
+             _uop("fmt", 1, ["x", "#e0", "#t0"], 0, 1, key="b"), _uop("ins", 1, ["x", "#e0"], 1, 1, k="E"),
+             _uop("ins", 1, ["x"], 1, 2, k="X"), tick]
+    for gc1 in (True, False):
+        for o in ("U", ""):
+            b = [dict(s, o=o) if s["a"] == "uop" else s for s in build]
+            # the whole subtree is removed by the tracked origin (tombstones the manager may have to restore)
+            add("xmlsub", ["x"], b + [_uop("del", 1, ["x"], 0, 1), tick, gcf, undo, gcf, redo, gcf, undo], gc1)
+            # attribute overwritten / removed, characters deleted, formatting replaced inside the kept subtree
+            add("xmlin", ["x"], b + [_uop("set", 1, ["x", "#e0"], key="id"), tick, _uop("rem", 1, ["x", "#e0"], key="id"), tick,
+                                     _uop("del", 1, ["x", "#e0", "#t0"], 0, 2), tick, _uop("fmt", 1, ["x", "#t0"], 0, 2, key="b"), tick,
+                                     _uop("fmt", 1, ["x", "#t0"], 0, 1, key="b"), tick,
+                                     gcf, undo, undo, gcf, undo, undo, undo, gcf, redo, redo, redo], gc1)
+        # a remote peer removes the element the tracked origin edited inside; forced / ordinary gc; undo, redo
+        for forced in (True, False):
+            s = build + [{"a": "sync", "f": 1, "t": 2, "how": "state", "sv": "own"}, _uop("ins", 1, ["x", "#e0", "#t0"], 1, 1), tick,
+                         _uop("set", 1, ["x", "#e0"], key="cl"), tick, _uop("del", 2, ["x"], 0, 1, o=""), {"a": "dlv", "r": 1, "u": [9]}]
+            add("xmlrem", ["x"], s + ([gcf] if forced else []) + [undo, undo, redo, undo, undo], gc1)
     return out
 
 
